@@ -110,6 +110,17 @@ def deviations(idx, nissuers_below):
     add("span=max", lambda c: c.update(b=NOW - 1000, a=NOW - 1000 + MAXV))
     add("span=max+1", lambda c: c.update(b=NOW - 1000, a=NOW - 1000 + MAXV + 1))
     add("expired-long-ago", lambda c: c.update(b=1000, a=2000))
+    # time arithmetic at representation boundaries: offsets of 2^31 / 2^32 seconds from now (+- 1, a day, the lifetime)
+    for D, dn in ((1 << 31, "2^31"), (1 << 32, "2^32"), (1 << 33, "2^33")):
+        for life, ln in ((DAY, "1d"), (365 * DAY, "1y"), (MAXV, "max")):
+            for k, kn in ((0, "0"), (1, "1"), (DAY, "day"), (life // 2, "half"), (life, "life"), (life + 1, "life+1")):
+                add("nb=now+%s-%s:life=%s" % (dn, kn, ln), lambda c, D=D, k=k, life=life: c.update(b=NOW + D - k, a=NOW + D - k + life))
+            add("nb=now-%s:life=%s" % (dn, ln), lambda c, D=D, life=life: c.update(b=max(0, NOW - D), a=max(0, NOW - D) + life))
+        add("na=now+%s:nb=now-1" % dn, lambda c, D=D: c.update(b=NOW - 1, a=NOW + D))
+        add("na=now+%s:nb=now+%s-max" % (dn, dn), lambda c, D=D: c.update(b=NOW + D - MAXV, a=NOW + D))
+    add("year-2162", lambda c: c.update(b=6060000000, a=6060000000 + DAY))
+    add("year-9999", lambda c: c.update(b=253402300799 - DAY, a=253402300799))
+    add("beyond-2038-valid", lambda c: c.update(b=NOW - 10, a=NOW - 10 + MAXV))
     # basicConstraints
     add("bc-absent", lambda c: set_ext(c, "bc", None))
     add("bc-empty-seq", lambda c: set_ext(c, "bc", "bc:1:-1:-1"))
@@ -151,6 +162,8 @@ def deviations(idx, nissuers_below):
 def dev_group(name):
     if name.startswith("alg-"):
         return "alg:" + name
+    if name.startswith(("nb=now+2^", "nb=now-2^", "na=now+2^")):
+        return "validity-wrap:" + name
     for p in ("version", "bc-ca", "bc-crit", "bc-twice", "ku=", "ku-crit", "eku=", "add-", "ski-"):
         if name.startswith(p):
             if p == "add-":
@@ -208,6 +221,8 @@ def gen(ctx):
                     for name, f in deviations(idx, below):
                         if not thorough and role == 1 and ncas == 2 and not (name.startswith("eku") or name.startswith("bc")):
                             continue
+                        if not thorough and name.startswith(("nb=now+2^", "nb=now-2^", "na=now+2^")) and (role == 1 or ncas == 2) and "life=1y" not in name:
+                            continue
                         if not thorough and name.startswith("alg-") and (role == 1 or ncas == 2) and name not in (
                                 "alg-inner2-outer2", "alg-inner2-outer2-sigbad", "alg-inner0-outer2", "alg-inner2-outer0", "alg-inner5-outer5", "alg-inner1-outer1", "alg-inner3-outer3"):
                             continue
@@ -243,6 +258,64 @@ def gen(ctx):
             for c in ch + st:
                 c.update(b=b, a=a)
             add(vline(form, 0, 6, now, ch, st), "verify:%s:clock:%s" % (form, nm))
+    # the scripted clock itself at and beyond 2^31 / 2^32; certificates valid there, and shifted by +-2^32 / +-2^31
+    for form, tlcp in forms:
+        ch0, st0 = base(1, tlcp, 0)
+        for now in ((1 << 31) - 1, 1 << 31, (1 << 31) + 1, (1 << 32) - 1, 1 << 32, (1 << 32) + 5, 1 << 33, 6060000000, 200000000000):
+            for shift, sn in ((0, "valid"), (1 << 32, "+2^32"), (-(1 << 32), "-2^32"), (1 << 31, "+2^31"), (-(1 << 31), "-2^31"), ((1 << 32) - 100 * DAY, "+2^32-100d")):
+                b, a = now - 50 * DAY + shift, now + 300 * DAY + shift
+                if b < 0:
+                    continue
+                for which in ("all", "leaf", "ca", "root"):
+                    ch, st = copy.deepcopy(ch0), copy.deepcopy(st0)
+                    for c in ch + st:
+                        c.update(b=now - 50 * DAY, a=now + 300 * DAY)
+                    tg = (ch + st) if which == "all" else ([ch[0]] if which == "leaf" else ([ch[-1]] if which == "ca" else st))
+                    for c in tg:
+                        c.update(b=b, a=a)
+                    add(vline(form, 0, 6, now, ch, st), "verify:%s:clock>=2^31:%s:%s" % (form, sn, which))
+    # --- name collisions with depth / pathLen exactly at the boundary: every CA certificate counts, also a
+    #     self-issued one (key rollover: issuer name = subject name, other key) and a root sent along with the chain
+    for form, tlcp in forms:
+        for role in (0, 1):
+            for extra in (1, 2):                      # number of self-issued copies inserted above CA_0
+                ch, st = base(1, tlcp, role)
+                ca0 = ch[-1]                          # subject 2, key 2, issued by root (1)
+                ncas = 1 + extra
+                # CA_0 (new key 2) is now issued by "itself" (name 2) under the older key(s) 5, 6; the oldest is issued by root
+                oldkeys = [5, 6][:extra]
+                ca0.update(i=2, g=oldkeys[0])
+                for j, k_ in enumerate(oldkeys):
+                    last = j == extra - 1
+                    ch.append(cert(2, 1 if last else 2, k_, 1 if last else oldkeys[j + 1], ["ski:-1:32", "ku:1:96", "bc:1:1:%d" % (j + 1)]))
+                for depth in (ncas - 2, ncas - 1, ncas, 6):
+                    for top_pl in (extra - 1, extra, -1):          # pathLen of the oldest (topmost) CA: one short / exact / absent
+                        for root_pl in (ncas - 1, ncas, -1):
+                            c2, s2 = copy.deepcopy(ch), copy.deepcopy(st)
+                            if top_pl < 0:
+                                set_ext(c2[-1], "bc", "bc:1:1:-1")
+                            else:
+                                set_ext(c2[-1], "bc", "bc:1:1:%d" % top_pl)
+                            set_ext(s2[0], "bc", "bc:1:1:%d" % root_pl if root_pl >= 0 else "bc:1:1:-1")
+                            add(vline(form, role, depth, NOW, c2, s2), "verify:%s:role%d:self-issued-ca:x%d:depth%s:toppl%s:rootpl%s" % (
+                                form, role, extra, "<" if depth < ncas else ("=" if depth == ncas else ">"),
+                                "absent" if top_pl < 0 else ("<" if top_pl < extra else "="), "absent" if root_pl < 0 else ("<" if root_pl < ncas else "=")))
+            # the root itself presented at the top of the chain, depth at the boundary
+            for ncas in (0, 1, 2):
+                ch, st = base(ncas, tlcp, role)
+                for depth in (ncas - 1, ncas, ncas + 1, ncas + 2):
+                    for root_pl in (ncas, ncas + 1, -1):
+                        c2, s2 = copy.deepcopy(ch), copy.deepcopy(st)
+                        set_ext(s2[0], "bc", "bc:1:1:%d" % root_pl if root_pl >= 0 else "bc:1:1:-1")
+                        add(vline(form, role, depth, NOW, c2 + [copy.deepcopy(s2[0])], s2), "verify:%s:role%d:root-in-chain:depth%+d:rootpl%s" % (
+                            form, role, depth - ncas, "absent" if root_pl < 0 else ("=" if root_pl == ncas else "+1")))
+            # leaf whose subject equals its issuer's subject; two CAs of the same name, the lower one self-signed
+            ch, st = base(1, tlcp, role)
+            c2 = copy.deepcopy(ch); c2[0].update(s=2)
+            add(vline(form, role, 6, NOW, c2, st), "verify:%s:role%d:leaf-named-like-its-issuer" % (form, role))
+            c2 = copy.deepcopy(ch); c2[-1].update(i=2, g=2)          # CA_0 self-signed, not anchored -> issuer 2 not in store
+            add(vline(form, role, 6, NOW, c2, st), "verify:%s:role%d:self-signed-intermediate-unanchored" % (form, role))
+            add(vline(form, role, 6, NOW, c2, st + [copy.deepcopy(c2[-1])]), "verify:%s:role%d:self-signed-intermediate-in-store" % (form, role))
     # --- C: random multi-deviation chains
     nrand = 700 if not thorough else 12000
     for n in range(nrand):
